@@ -208,6 +208,8 @@ def run_shard(spec, rec):
     cfg = G.Cfg(filters=True, regex_functions=True, big_ints=True, max_depth=3)
     gen = G.QGen(R, cfg)
     pool = []
+    from jsonpath_rfc9535 import JSONPathEnvironment
+    nd_env = type("NDEnv", (JSONPathEnvironment,), {"nondeterministic": True})()
     deep = [deep_doc(100, "list"), deep_doc(100, "dict"), deep_doc(100, "mix"), deep_doc(101, "list"), deep_doc(130, "mix")]
     try:
         for _ in range(spec["n"]):
@@ -232,7 +234,14 @@ def run_shard(spec, rec):
                             docs.append(D.gen_value(R, ["a", "b", "c", ""], D.LEAVES, 0, 4, 4))
                         if R.random() < 0.08:
                             docs.append(R.choice(deep))
+                        qs = [q]
+                        if R.random() < 0.3:
+                            o_nd = mon.observe(nd_env.compile, text)
+                            if o_nd[0] == "ok":
+                                qs.append(o_nd[1])
+                                rec.feat("evaluated-in-nondeterministic-mode")
                         for d in docs:
+                          for q in qs:
                             rec.wal({"compile": text, "apply_to": D.short(d, 300)})
                             o2 = mon.observe(lambda: list(q.finditer(d)))
                             rec.monitor("M-find")
